@@ -49,9 +49,15 @@ var taskFields = []string{"id", "title", "body", "epic", "state", "claim", "rsum
 
 // complete fills in the fields the specification's clauses read.
 func complete(c Cmd) Cmd {
+	// deep copy: commands are shared between worker goroutines and the
+	// normalisation below touches nested values (plan documents)
 	out := Cmd{}
-	for k, v := range c {
-		out[k] = v
+	if b, err := json.Marshal(c); err == nil {
+		_ = json.Unmarshal(b, &out)
+	} else {
+		for k, v := range c {
+			out[k] = v
+		}
 	}
 	if _, ok := out["mode"]; !ok {
 		out["mode"] = "json"
